@@ -410,8 +410,13 @@ impl Parser<'_, '_> {
         }
         if inner.consp() {
             let name = inner.car()?;
-            let ctxobj = eval(self.ctx, &name).ok();
-            inner.with_ctxobj(ctxobj);
+            // Only a symbol can be looked up without running code: a head that
+            // is itself a list (a cond clause, a let binding) must not be
+            // evaluated while reading.
+            if name.symbolp() {
+                let ctxobj = eval(self.ctx, &name).ok();
+                inner.with_ctxobj(ctxobj);
+            }
         }
         Ok(inner)
     }
